@@ -146,9 +146,9 @@ def mk(rep, cfg, modpath, fn, nargs, in_tops, assume_lt, goal_fn, T, use_contrac
     return discharge(rep, run, "%s/%s" % (cfg, fn), goals, o, cfg, fn, bounds_note, timeout_s=T, replay=replay, selftest=build_run,
                      assumptions=(["calls to Scalar::sub summarised by its contract (established by harness %s/vp_us_sub in this run)" % cfg] if use_contract else []))
 
-def run_config(rep, cfg, tier, tasks):
+def run_config(rep, cfg, tier, tasks, flavour="O3"):
     S = SC[cfg]; lay = S["layout"]; rb = S["rb"]; n = S["n"]
-    modpath = build.ir(cfg, "O3")
+    modpath = build.ir(cfg, flavour)
     T = 120 if tier == "quick" else 600
     R = 1 << (rb * n)
     top256 = 1 << (256 - rb * (n - 1))
